@@ -59,6 +59,7 @@ class Run:
         self.stats_files = []
         self.inconclusive = None
         self.stage_info = []
+        self.collected = {}
 
     # ---------------------------------------------------------------- build
     def build(self):
@@ -171,6 +172,11 @@ class Run:
             if kind == "rapid":
                 for m in re.finditer(r"\[rapid\] OK, passed (\d+) tests", text):
                     passed += int(m.group(1))
+            if os.environ.get("VERIF_COLLECT") == "1":
+                for m in re.finditer(r"COLLECT (\S+) :: (.*)", text):
+                    if m.group(1) not in self.collected:
+                        self.collected[m.group(1)] = m.group(2)
+                        log("COLLECT %s :: %s" % (m.group(1), m.group(2)[:1500]))
             for m in re.finditer(r"KNOWN-REPRO (\S+) (yes|no)(?: (.*))?", text):
                 self.known_lines.append((m.group(1), m.group(2), m.group(3) or ""))
             if rc == 0:
